@@ -181,11 +181,52 @@ def inner_app(iface: str, recipe: str, sym: Dict[str, Any], counter: List[int]):
         recipe = "plain"
     if recipe == "emptylist":
         recipe = "empty"
+    if recipe in ("raw-events", "raw-events-204"):
+        # a hand-written ASGI application using what the specification allows: 'headers' and 'body' are optional keys
+        # (body defaults to b"", more_body to False), the stream ends with a bare body event
+        async def app(scope, receive, send):
+            counter[0] += 1
+            if recipe == "raw-events-204":
+                await send({"type": "http.response.start", "status": 204})
+                await send({"type": "http.response.body"})
+                return
+            await send({"type": "http.response.start", "status": st, "headers": [(b"x-a", hv.encode("latin-1") if not isinstance(hv, bytes) else hv)]})
+            await send({"type": "http.response.body", "body": sym.get("body", b"first"), "more_body": True})
+            await send({"type": "http.response.body", "more_body": True})
+            await send({"type": "http.response.body"})
+        return app
+    if recipe == "file-zerocopy":
+        # a FileResponse on a real file behind a server that offers the zero-copy-send extension
+        p = _shared_file()
+
+        async def app(scope, receive, send):
+            counter[0] += 1
+            await AR.FileResponse(p, headers={"x-a": hv}, content_type="application/octet-stream")(scope, receive, send)
+        return app
 
     async def app(scope, receive, send):
         counter[0] += 1
         await resp()(scope, receive, send)
     return app
+
+
+_FILE: Dict[str, str] = {}
+
+
+def _shared_file() -> str:
+    """one real 70000-byte file per process (bare and wrapped runs must see the same mtime / ETag)"""
+    if "p" not in _FILE:
+        import atexit
+        import os
+        import shutil
+        import tempfile
+        d = tempfile.mkdtemp(prefix="c20_")
+        atexit.register(lambda: shutil.rmtree(d, ignore_errors=True))
+        _FILE["p"] = os.path.join(d, "f.bin")
+        with open(_FILE["p"], "wb") as f:
+            f.write(bytes((i * 7 + 1) % 251 for i in range(70000)))
+        os.utime(_FILE["p"], (1700000000, 1700000000))
+    return _FILE["p"]
 
 
 def wrap(iface: str, app, depth: int, kind: str, edit_value=None):
@@ -230,7 +271,33 @@ def view_app(iface: str, sym, counter, decorated: int):
     return SC.request_response(v)
 
 
-def observe(iface, app):
+def observe(iface, app, zerocopy=False):
+    if zerocopy:
+        # a server that offers http.response.zerocopysend and turns those messages into the bytes they denote (read at send time)
+        import asyncio
+        import os
+        sent: List[Any] = []
+
+        async def send(m):
+            if m["type"] == "http.response.zerocopysend":
+                fd = m["file"]
+                if m.get("offset") is not None:
+                    os.lseek(fd, m["offset"], os.SEEK_SET)
+                data = os.read(fd, m["count"]) if m.get("count") is not None else b"".join(iter(lambda: os.read(fd, 1 << 20), b""))
+                m = {"type": "http.response.body", "body": data, "more_body": m.get("more_body", False)}
+            sent.append(("send", m))
+
+        async def receive():
+            await asyncio.get_running_loop().create_future()
+        sc = dict(C5.scope("GET"), extensions={"http.response.zerocopysend": {}})
+        try:
+            asyncio.run(asyncio.wait_for(app(sc, receive, send), 20))
+        except Exception as ex:  # noqa: BLE001
+            return ("raise", type(ex).__name__)
+        bodies = [m for _, m in sent if m["type"] == "http.response.body"]
+        if not bodies or bodies[-1].get("more_body", False):
+            return ("incomplete", len(bodies))
+        return ("ok", gw.norm_asgi(sent))
     if iface == "wsgi":
         ev, done = gw.run_wsgi(app, C5.environ("GET"))
         r = [x for x in ev if x[0] == "raise"]
@@ -283,8 +350,9 @@ def run_job(job) -> report.JobResult:
             bare = observe(iface, view_app(iface, sym, c0, 0))
             wrapped = observe(iface, view_app(iface, sym, c1, depth))
         else:
-            bare = observe(iface, inner_app(iface, recipe, sym, c0))
-            wrapped = observe(iface, wrap(iface, inner_app(iface, recipe, sym, c1), depth, kind, edit_value))
+            zc = recipe == "file-zerocopy"
+            bare = observe(iface, inner_app(iface, recipe, sym, c0), zc)
+            wrapped = observe(iface, wrap(iface, inner_app(iface, recipe, sym, c1), depth, kind, edit_value), zc)
         if c1[0] != 1:
             raise Fail("inner-application-not-run-exactly-once", f"{c1[0]} runs")
         if bare[0] != wrapped[0]:
@@ -357,6 +425,9 @@ def concrete_confirm(job, inputs) -> Optional[bool]:
         iface, recipe, depth, kind = job["iface"], job["recipe"], job["depth"], job["kind"]
 
         def obs(app):
+            if recipe == "file-zerocopy":
+                o = observe(iface, app, True)
+                return ("ok", int(o[1][0]), sorted(o[1][1]), bytes(o[1][2])) if o[0] == "ok" else o
             if iface == "wsgi":
                 ev, done = gw.run_wsgi(app, C5.environ("GET"))
                 r = [x for x in ev if x[0] == "raise"]
@@ -502,7 +573,7 @@ def jobs(tier: str):
     b = META["bounds"][tier]
     out = [dict(name="asgi/overlap/two-requests-one-middleware", iface="asgi", recipe="overlap", depth=1, kind="overlap", what="schedule", weight=40)]
     for iface in ("wsgi", "asgi"):
-        for recipe in ("plain", "empty", "json", "redirect", "cookie1", "cookie2", "stream", "restart", "raises") + (("list1", "list2", "emptylist", "tuple1") if iface == "wsgi" else ()):
+        for recipe in ("plain", "empty", "json", "redirect", "cookie1", "cookie2", "stream", "restart", "raises") + (("list1", "list2", "emptylist", "tuple1") if iface == "wsgi" else ("raw-events", "raw-events-204", "file-zerocopy")):
             for depth in range(1, b["depth_max"] + 1):
                 what = "header" if recipe not in ("cookie1", "cookie2") else "cookie"
                 out.append(dict(name=f"{iface}/{recipe}/identity{depth}/{what}", iface=iface, recipe=recipe, depth=depth, kind="identity", what=what, n=1))
